@@ -556,7 +556,7 @@ func (ts *TermStore) Div(a, m *Term) *Term {
 		if m.isOne() {
 			return a
 		}
-		if a.op == "ite" && (a.args[1].IsConst() || a.args[2].IsConst()) {
+		if a.op == "ite" && (a.args[1].IsConst() || a.args[2].IsConst() || (a.args[1].op != "ite" && a.args[2].op != "ite")) {
 			return ts.Ite(a.args[0], ts.Div(a.args[1], m), ts.Div(a.args[2], m))
 		}
 		t := &Term{op: "div", args: []*Term{a, m}, sort: SInt}
@@ -676,7 +676,7 @@ func (ts *TermStore) Mod(a, m *Term) *Term {
 		if a.lo != nil && a.hi != nil && a.lo.Sign() >= 0 && a.hi.Cmp(m.ival) < 0 {
 			return a
 		}
-		if a.op == "ite" && (a.args[1].IsConst() || a.args[2].IsConst()) {
+		if a.op == "ite" && (a.args[1].IsConst() || a.args[2].IsConst() || (a.args[1].op != "ite" && a.args[2].op != "ite")) {
 			return ts.Ite(a.args[0], ts.Mod(a.args[1], m), ts.Mod(a.args[2], m))
 		}
 		// power-of-two modulus and enough trailing zeros
